@@ -23,6 +23,7 @@ EXPLANATION = (
     " Added after seed round 3: (1e) INV-LAYER - state switched inside a render closure and read by an inherited render() that is cached without the focus flag (Text.ignore_focus under Edit) changes only together with _invalidate(); (6) CanvasCache.cleanup drops a widget's _deps entry under exactly the conditions under which it drops its _widgets entry; (7) a size-keyed layout memo is not used in the cases in which the memoised computation consults a child (Columns with PACK columns)."
     " Round 4 triage: (8) HIDDEN-DEP - a render() that can finish without rendering a child it consulted for the layout (Pile item with 0 rows, Columns column without width, trimmed-away Frame header/footer, Overlay over an empty bottom canvas) declares the dependency with set_depends() naming that child's source on the skipping path; (9) INV-RENDER - a render-path method that rewrites state render() reads (Scrollable's position clamped for the size at hand, Edit's view shift, ListBox's offset) reaches _invalidate() - directly, through all its render-path callers, or by the `if self.x != saved: self._invalidate()` idiom - so canvases cached for other sizes do not outlive the value they were rendered from."
     ' (10) ALIAS: the objects a canvas keeps by reference (rows handed to TextCanvas, the mapping of fill_attr_apply, the list of set_depends) are fresh at every call site or widget attributes whose every store is a private copy and that are never changed in place (before fix 45b9be8 AttrMap.set_attr_map / set_focus_map stored the dictionary of the caller: changing it later altered canvases already cached).'
+    ' (11) ALIAS: an attribute a canvas class edits in place (coords, shortcuts, the cache tables) only ever holds an object of its own: no store of another canvas\'s attribute or of a bare parameter.'
 )
 NOT_DECIDED = (
     "That cached and fresh renderings are equal for all widget trees and histories (needs the value semantics of rendering); that the cascade reaches the right widgets "
@@ -445,6 +446,7 @@ def run(ctx: Ctx):
         canv.run_hidden_dep(p, "C06.8", floor=6),
         inv.run_inv_render_write(p, "C06.9", floor=40, exceptions=INV_RENDER_EXCEPTIONS),
         alias.run_alias(p, "C06.10", floor=12),
+        alias.run_inplace_own(p, "C06.11", ["urwid.canvas"], floor=6, exempt={"shards": "shared on purpose, copy-on-write decided path by path by FRESHLIST (C06.2c)"}),
     ]
     return out
 
